@@ -41,7 +41,8 @@ _SNAP = None
 _BASE = None
 _PRISTINE = None
 _SH0 = None
-BASEFILE = os.path.join(repo.VERIF, ".work", "c14", "baseline.json")
+# one baseline file per run (the parent exports its name to the spawned workers and subprocesses)
+BASEFILE = os.environ.get("VERIF_C14_BASE") or os.path.join(repo.VERIF, ".work", "c14", f"baseline-{os.getpid()}.json")
 
 
 def _init():
@@ -250,6 +251,7 @@ def plan(run):
                        "the census sees all process-global rtflite state: module-level and class-level dict/list/set/ContextVar/instances",
                        "a constructed-but-unmodified document without shared components has the same futures as an absent one (merged)"]
     os.makedirs(os.path.dirname(BASEFILE), exist_ok=True)
+    os.environ["VERIF_C14_BASE"] = BASEFILE
     seeds = [0, 1, (run.seed % 1000) + 2]
     with ThreadPoolExecutor(6) as ex:
         futs = [(s, half, ex.submit(fresh_results, half, s)) for s in seeds for half in (HP.POOL_NAMES[:5], HP.POOL_NAMES[5:])]
